@@ -42,6 +42,9 @@ class HelpersBounded(BoundedCheck):
                             # the same with the shift given as a NumPy integer, positionally / by keyword, and with the default fill value
                             yield {'fn': fn, 'x': x, 'p': p, 'fill': 'nan', 'spelling': 'numpy-int'}
                             yield {'fn': fn, 'x': x, 'p': p, 'fill': 'nan', 'spelling': 'default-fill'}
+                        if fill == 0.0 and n in (2, 3):
+                            # an integer array with a fill value its dtype can hold
+                            yield {'fn': fn, 'x': x, 'p': p, 'fill': 0.0, 'spelling': 'int-array'}
 
     def check(self, case, res: BoundedResult):
         import fsic.functions as F
@@ -50,6 +53,9 @@ class HelpersBounded(BoundedCheck):
             p = np.int64(p)
         fill = float('nan') if case['fill'] == 'nan' else float(case['fill'])
         x = np.array(xs, dtype=float)
+        if case.get('spelling') == 'int-array':
+            x = np.array([int(v) for v in xs], dtype=int)
+            fill = int(fill)
         x0 = x.copy()
         n = len(xs)
         out = []
